@@ -155,7 +155,7 @@ def reset_generator_globals():
 
 
 def generate(doc, root, output_package="cli", core_package=None, force=True, naming="operationId",
-             fmt="json", spec_name=None, no_postprocess=True, reset=True, around=None, spec_path=None):
+             fmt="json", spec_name=None, no_postprocess=True, reset=True, around=None, spec_path=None, naming_as_str=False):
     """Run the real generator on `doc` into project root `root`.
     Returns (files | None, exception | None)."""
     from pyopenapi_gen.generator.client_generator import ClientGenerator
@@ -175,6 +175,8 @@ def generate(doc, root, output_package="cli", core_package=None, force=True, nam
         spec_path = os.path.join(spec_dir, spec_name or ("spec." + ext))
     write_spec(doc, spec_path, fmt)
     ns = {s.value: s for s in NamingStrategy}[naming]
+    if naming_as_str:
+        ns = str(ns.value)   # the programmatic API documents the strategies by their string spellings
     try:
         with Quiet(), (around() if around is not None else contextlib.nullcontext()):
             files = ClientGenerator(verbose=False).generate(
